@@ -24,8 +24,9 @@ Proof. reflexivity. Qed.
    writer state the handler left; if it panics, same panic value and no record *)
 Theorem one_record_after_return : forall (e : env) (next : handler) w tr,
   (forall w' tr', next w tr = (Returned, w', tr') ->
-     logger e next w tr = (Returned, w', tr' ++ [EvLog (assemble e w')]) /\
-     logs_of (snd (logger e next w tr)) = logs_of tr' ++ [assemble e w']) /\
+     logger e next w tr = (Returned, w', tr' ++ emit e w') /\
+     logs_of (snd (logger e next w tr))
+     = logs_of tr' ++ (if enabled_at (e_min e) (level (w_status w')) then [assemble e w'] else [])) /\
   (forall id w' tr', next w tr = (Panicked id, w', tr') ->
      logger e next w tr = (Panicked id, w', tr') /\
      logs_of (snd (logger e next w tr)) = logs_of tr').
@@ -33,6 +34,7 @@ Proof. exact one_record_after_return_proof. Qed.
 Print Assumptions one_record_after_return.
 
 Theorem one_record_iff_returns : forall (e : env) (next : handler) w tr,
+  (forall l, enabled_at (e_min e) l = true) ->          (* a log handler enabled at every level *)
   let '(r, _, tr') := next w tr in
   let n := List.length (logs_of (snd (logger e next w tr))) in
   (r = Returned <-> n = S (List.length (logs_of tr'))) /\
@@ -76,7 +78,7 @@ Print Assumptions ip_message_three_way.
 Example ip_message_nonvacuous :
   r_msg (assemble ex_env w_reset) = S2B "192.0.2.1" /\
   (forall k, r_msg (assemble {| e_kind := k; e_glob := Some (ResErr (ELeaf 7%N)); e_route := RNil;
-                       e_method := []; e_host := []; e_path := []; e_remote := S2B "r" |} w_reset)
+                       e_method := []; e_host := []; e_path := []; e_remote := S2B "r"; e_min := None |} w_reset)
      = if has_route k then S2B "r" else S2B "unknown").
 Proof. split; [reflexivity | intros []; reflexivity]. Qed.
 
@@ -94,7 +96,7 @@ Print Assumptions logger_transparent.
    by itself, an ideal observation of the model's run passes the specification *)
 Theorem model_meets_spec : forall (e : env) (next : handler),
   (forall r w tr, next w_reset [] = (r, w, tr) -> logs_of tr = []) ->
-  spec_ok (e_kind e) (e_glob e) (e_route e) (e_method e) (e_host e) (e_path e) (e_remote e)
+  spec_ok (e_kind e) (e_glob e) (e_route e) (e_method e) (e_host e) (e_path e) (e_remote e) (e_min e)
           (match next w_reset [] with (Panicked id, _, _) => Some id | _ => None end) 1%nat
           (observe e next) = true.
 Proof. exact model_meets_spec_proof. Qed.
@@ -118,7 +120,7 @@ Proof. split; reflexivity. Qed.
    all after the handler; none if it panics *)
 Theorem loggers_records : forall n (e : env) (next : handler) w tr,
   (forall w' tr', next w tr = (Returned, w', tr') ->
-     loggers n e next w tr = (Returned, w', tr' ++ repeat (EvLog (assemble e w')) n)) /\
+     loggers n e next w tr = (Returned, w', tr' ++ List.concat (repeat (emit e w') n))) /\
   (forall id w' tr', next w tr = (Panicked id, w', tr') ->
      loggers n e next w tr = (Panicked id, w', tr')).
 Proof. exact loggers_records_proof. Qed.
@@ -138,4 +140,14 @@ Example chain_nonvacuous :
   let globals := [AWithMiddlewareFor [SRoute; SNoRoute]; AWithMiddleware; AWithMiddlewareFor [SOptions]] in
   map (fun d => loggers_run KRoute d globals 1 0) [DServe; DAliasMiddleware; DAliasHandle; DLookupMiddleware; DLookupHandle]
   = [3; 3; 2; 1; 0]%nat /\ loggers_run KNoRoute DServe globals 1 0 = 2%nat /\ loggers_run KRedirect DServe globals 1 0 = 1%nat.
+Proof. repeat split. Qed.
+
+(* a log handler with minimum level WARN: nothing for a 2xx, one WARN record for a 404 — the
+   decision is taken after the handler, at the record's level *)
+Example min_level_is_checked_at_the_records_level :
+  let e := {| e_kind := KRoute; e_glob := None; e_route := RInherit; e_method := S2B "GET"; e_host := [];
+              e_path := S2B "/"; e_remote := S2B "r"; e_min := Some LevelWarn |} in
+  logs_of (snd (logger e (run_actions [AWriteHeader 204]) w_reset [])) = [] /\
+  List.length (logs_of (snd (logger e (run_actions [AWriteHeader 404]) w_reset []))) = 1%nat /\
+  List.length (logs_of (snd (logger e (run_actions [AWriteHeader 302]) w_reset []))) = 0%nat.
 Proof. repeat split. Qed.
